@@ -192,8 +192,12 @@ func (vc *VC) havocTargets(st *State, targets []modTarget) {
 		case "range":
 			old := sel(st.H[t.heap], t.ref)
 			nr := vc.fresh(rowSort(t.sort), "hvrow")
-			vc.assume(fmt.Sprintf("(forall ((j!q (_ BitVec 64))) (! (=> (not (and (bvsle %s j!q) (bvslt j!q %s))) (= (select %s j!q) (select %s j!q))) :pattern ((select %s j!q))))",
-				t.lo, t.hi, nr, old, nr))
+			lo, hi := t.lo, t.hi
+			gen := func(j string) string {
+				return implies(not(and(app("bvsle", lo, j), app("bvslt", j, hi))), eq(sel(nr, j), sel(old, j)))
+			}
+			vc.assume(fmt.Sprintf("(forall ((j!q (_ BitVec 64))) (! %s :pattern ((select %s j!q))))", gen("j!q"), nr))
+			vc.addHyp(gen)
 			st.H[t.heap] = vc.def(heapSort(t.sort), sto(st.H[t.heap], t.ref, nr), t.heap)
 		case "ghost":
 			st.H[t.heap] = vc.def(stateSorts[t.heap], sto(st.H[t.heap], t.ref, vc.fresh(ghostElemSort(t.heap), "hv")), t.heap)
